@@ -78,7 +78,11 @@ EXTRA4 = {
  "C07": "C07.14 at every establishment site the index insert dominates the Ok store or lies on every path after it; C07.15 the framework's own close on an unsupported message type is asynchronous (= C06.6)",
  "C08": "C08.9 every established session is indexed (peer Close finds it; = C07.14); C08.10 the write deadline is re-armed for every frame (= C03.13)",
  "C09": "C09.10 AsyncCall holds the per-call mutex from the publication to its return, ordering PostWriteCall before the reply stages (= C02.3)",
- "C12": "C12.11 an error reply over HTTP is packed with the announced filter (= C04.14)",
+ "C11": "C11.10 encoded bodies reach a JSON frame only through a byte-transparent escaper (= C05.13)",
+ "C14": "C14.9 no released pooled buffer is returned to a caller that still frames it (= C12.6)",
+ "C16": "C16.9 ModifySocket keeps the id a hook assigned, so a rejected connection is removed from the index under the right key (= C07.13)",
+ "C18": "C18.11 the disconnect hook (slot release) comes after the handler waits and socket.Close in closeLocked (= C08.1); C18.12 nothing reachable from qpsLimiter.update writes the token count",
+ "C12": "C12.11 an error reply over HTTP is packed with the announced filter (= C04.14); C12.12 the gzip filter's inflate bound follows the configured limit on every path of its setter (= C06.11)",
  "C13": "C13.12 a redialed session is re-indexed on every path (= C07.14); C13.13 a rejected redial attempt restores Redialing (= C02.14)",
  "C20": "C20.8 a buffer made on a pool miss is empty (zero-length B, nothing but Reset called on it)",
 }
